@@ -34,12 +34,20 @@ VX == << S(<<"2","0","2","0","-","0","1","-","0","1">>),
 (* in no schema text of the universe (checked by MarkerDiscipline in MC_C19).            *)
 Mk(d) == S(<<"M", "q", d>>)
 MkLong(d) == S(<<"M", "q", d, "x", "x", "x">>)
+FDate     == S(<<"2","0","9","9","-","0","2","-","3","0">>)
+FDateTime == S(<<"2","0","9","9","-","0","2","-","3","0","T","2","5",":","6","1",":","0","0","Z">>)
+FIpv4     == S(<<"1",".","2",".","3",".","9","9","9">>)
+FIpv6     == S(<<"1",":",":","2",":",":","3">>)
+FByte     == S(<<"T","X","E","=","x">>)
 MVals == <<
    Mk("0"), MkLong("1"), Arr(<<Mk("2")>>), Arr(<<Mk("3"), Mk("3")>>), Arr(<<One, Mk("4")>>),
    Arr(<<Mk("5"), Mk("6"), Mk("7")>>), Obj(<<"x">>, <<Mk("8")>>), Obj(<<"x", "y">>, <<Mk("9"), One>>),
    Obj(<<"x">>, <<Arr(<<Mk("a")>>)>>), Obj(<<"x", "y", "z">>, <<One, Mk("b"), Null>>),
    Arr(<<Obj(<<"x">>, <<Mk("c")>>)>>), Obj(<<"y">>, <<Mk("d")>>), Obj(<<"x">>, <<Obj(<<"x">>, <<Mk("e")>>)>>),
-   Arr(<<Arr(<<Mk("f")>>)>>), Obj(<<"x", "y">>, <<Mk("g"), Mk("h")>>) >>
+   Arr(<<Arr(<<Mk("f")>>)>>), Obj(<<"x", "y">>, <<Mk("g"), Mk("h")>>),
+   \* strings that have the SHAPE a format asks for and are still not values of it (a validator that gets past its
+   \* shape check must not start quoting): an impossible day, an impossible time, an octet > 255, two "::", bad base64
+   FDate, FDateTime, FIpv4, FIpv6, FByte, Obj(<<"x">>, <<FDate>>), Arr(<<FIpv4>>) >>
 
 Atom(f, x) == [f |-> f, x |-> x]
 
@@ -73,7 +81,8 @@ Atoms ==
 ExtAtoms ==
    {Atom("format", f) : f \in {"date", "date-time", "byte", "int32", "int64", "no-such-format",
                                 "ipv4", "ipv6",       \* opt-in validators (DefineIPv4Format / DefineIPv6Format): they return schema errors of their own
-                                "x-even-length"}}     \* a validator the caller registers (harness: strings of even length), returning a plain error
+                                "x-even-length",      \* a validator the caller registers (harness: strings of even length), returning a plain error
+                                "x-wrapped"}}         \* a caller's validator that delegates to a library validator and WRAPS its (value-free) schema error
    \cup {Atom("pattern", "^[a-z]+$"), Atom("pattern", "("), Atom("disc", "x"), Atom("discmap", "x")}
 
 (* keywords an outer (wrapping) level may add next to the wrapped schema *)
